@@ -41,7 +41,8 @@ DEADLINE = {"quick": 70, "thorough": 900}
 QUICK_SC = ["ssl3-rsa", "tls10-dhe_rsa", "tls11-ecdhe_rsa-clientauth",
             "tls12-ecdhe_ecdsa", "tls12-resume-ticket", "tls12-srp_rsa",
             "tls13-rsa", "tls13-hrr", "tls13-psk_dhe", "tls13-clientauth",
-            "tls13-resume-ticket", "default-default"]
+            "tls13-resume-ticket", "default-default", "tls12-ecdhe_rsa-alpn",
+            "tls13-alpn-tickets", "tls12-ecdhe_rsa-npn"]
 FAIL_SC = ["fail-nosuite", "fail-version", "fail-tamper"]
 
 VARIANTS = ["recv1", "recv2", "recv3", "recv5", "recv_rand", "send1",
@@ -49,7 +50,9 @@ VARIANTS = ["recv1", "recv2", "recv3", "recv5", "recv_rand", "send1",
             "sched_ahead0", "sched_ahead1", "sched_random", "frag1", "frag2",
             "frag3", "frag4", "frag_rand", "coalesce", "recsize1", "recsize7",
             "recsize64", "recv1_frag2", "asm", "threads", "threads_chunk",
-            "merge", "merge_frag57", "merge_frag_rand", "asm_wb", "asm_recv1"]
+            "merge", "merge_frag57", "merge_frag_rand", "asm_wb", "asm_recv1",
+            "threads_blocking_api", "wb_both_keepsock", "wb_read3_keepsock",
+            "recv1_keepsock"]
 
 
 def abstract(R, secrets=True):
@@ -79,6 +82,9 @@ class Scripts(object):
     """socket scripts with counters"""
 
     def __init__(self, kind, rng):
+        # "_keepsock": same transport script, closeSocket switched off, so
+        # close() itself waits for the peer's close_notify
+        kind = kind.replace("_keepsock", "")
         self.kind = kind
         self.rng = rng
         self.state = {}
@@ -273,6 +279,10 @@ def run_variant(sc, label, variant, rng, tamper=False):
                 "sched_ahead1": "ahead:1",
                 "sched_random": "random"}.get(variant, "rr")
     tweak = None
+    if variant.endswith("_keepsock"):
+        def tweak(p, fl):
+            p.c.closeSocket = False
+            p.s.closeSocket = False
     if variant.startswith("recsize") or variant == "coalesce":
         n = {"recsize1": 1, "recsize7": 7, "recsize64": 64,
              "coalesce": 2 ** 14}[variant]
@@ -414,7 +424,7 @@ class ChunkSock(object):
         return getattr(self.s, n)
 
 
-def run_threads(sc, label, chunk=0):
+def run_threads(sc, label, chunk=0, api="generator"):
     boot.install_vclock(1_800_000_000.0)
     boot.drbg.reseed(label + "/prep")
     st = sc.prepare()
@@ -434,7 +444,10 @@ def run_threads(sc, label, chunk=0):
 
     def client():
         try:
-            blocking(fl.client_gen(c))
+            if api == "blocking":
+                fl.client_gen(c, blocking=True)
+            else:
+                blocking(fl.client_gen(c))
             res["c"]["hs"] = True
             res["c"]["view"] = scn.full_view(c)
             c.write(b"ping-from-client" * 3)
@@ -446,7 +459,10 @@ def run_threads(sc, label, chunk=0):
 
     def server():
         try:
-            blocking(fl.server_gen(s))
+            if api == "blocking":
+                fl.server_gen(s, blocking=True)
+            else:
+                blocking(fl.server_gen(s))
             res["s"]["hs"] = True
             res["s"]["view"] = scn.full_view(s)
             r = s.read(None, 48)
@@ -480,7 +496,8 @@ def make_cases(ctx):
         vs = list(VARIANTS)
         if ctx.quick:
             keep = ["recv1", "wb_both", "frag1", "asm", "threads", "merge",
-                    "merge_frag57", "asm_wb"]
+                    "merge_frag57", "asm_wb", "threads_blocking_api",
+                    "wb_both_keepsock", "wb_read3_keepsock"]
             rest = [v for v in vs if v not in keep]
             rng.shuffle(rest)
             vs = keep + rest[:9]
@@ -488,8 +505,9 @@ def make_cases(ctx):
             if name == "fail-tamper" and (v.startswith(("recsize", "frag",
                                                        "coalesce")) or
                                           v.startswith(("merge", "asm")) or
-                                          v in ("recv1_frag2",
-                                                "threads", "threads_chunk")):
+                                          v in ("recv1_frag2", "threads",
+                                                "threads_chunk",
+                                                "threads_blocking_api")):
                 continue    # the tampered record is defined by its framing
             reps = 1 if ctx.quick or v not in ("recv_rand", "send_rand",
                                                "frag_rand", "sched_random") \
@@ -586,7 +604,8 @@ def run_case(ctx, cid, P):
         if name in ("fail-tamper",):
             return
         res, hung = run_threads(sc, label, 3 if variant == "threads_chunk"
-                                else 0)
+                                else 0, api="blocking" if variant ==
+                                "threads_blocking_api" else "generator")
         ctx.ev()
         if hung:
             ctx.inconc("threaded run timed out in %s (watchdog, not a "
